@@ -540,10 +540,20 @@ class HistIO(Hist):
         """save_to_file -> from_bench_file through SimFS."""
         cm = self.m['circuit_mod']
         simfs.FS.reset()
-        scenario = weighted_choice(rng, [('plain', 3), ('missing-parents', 3), ('pre-existing-longer', 2), ('mkdir-race', 2)])
+        scenario = weighted_choice(rng, [('plain', 3), ('missing-parents', 3), ('pre-existing-longer', 2), ('mkdir-race', 2),
+                                         ('through-symlink', 2)])
         path = '/out/a/b/c.bench' if scenario in ('missing-parents', 'mkdir-race') else '/work/c.bench'
         if scenario in ('plain', 'pre-existing-longer'):
             simfs.FS.dirs.add('/work')
+        if scenario == 'through-symlink':
+            # /work/lnk -> /data/real/deep, and the caller's spelling climbs out of it again: the operating system
+            # resolves "/work/lnk/.." to /data/real, which is not what the spelling looks like
+            simfs.FS.dirs.update(('/work', '/data', '/data/real', '/data/real/deep'))
+            simfs.FS.links['/work/lnk'] = '/data/real/deep'
+            path = rng.choice(('/work/lnk/../c.bench', '/work/lnk/c.bench', '/work/lnk/../deep/../c.bench'))
+            if rng.random() < 0.5:
+                # an older file of another session sits where the spelling, read as text, seems to point
+                simfs.FS.files['/work/c.bench'] = b'INPUT(stale)\nOUTPUT(stale)\n'
         if scenario == 'pre-existing-longer':
             simfs.FS.files[path] = b'INPUT(zzz)\n' * 500
         saved = cm.pathlib
